@@ -50,6 +50,7 @@ type Op struct {
 
 type TreeCase struct {
 	RootOnly bool `json:"rootOnly"`
+	Dense    bool `json:"dense,omitempty"`
 	Ops      []Op `json:"ops"`
 }
 
@@ -188,6 +189,7 @@ type interp struct {
 	iters    []*retainedIter
 	watches  []*watched
 
+	dense     bool
 	tx        *part.Txn[int]
 	txModel   model
 	txMain    bool
@@ -594,7 +596,7 @@ func (in *interp) addVersion(v *version) {
 }
 
 func runTree(c TreeCase, own string) (res result) {
-	in := &interp{c: c, own: own}
+	in := &interp{c: c, own: own, dense: c.Dense}
 	defer func() {
 		if r := recover(); r != nil {
 			// a panic inside the code under test (or its internal BUG checks)
@@ -638,13 +640,18 @@ func runTree(c TreeCase, own string) (res result) {
 			in.ensureTxn(o)
 			for i := 0; i < o.B && err == nil; i++ {
 				k := append(bytes.Clone(o.Key), byte(o.A+i))
-				if o.Val%3 == 2 {
-					k = append(k, byte(o.Val))
-				}
+				long := append(bytes.Clone(k), 5)
 				if o.K == opInsertRange {
+					if o.Val == 5 {
+						k = long // a longer key: the child is an inner position with a deeper leaf
+					}
 					err = in.doInsert(k, o.Val+i, false, false)
 				} else {
+					// delete whichever form is present
 					err = in.doDelete(k)
+					if err == nil {
+						err = in.doDelete(long)
+					}
 				}
 			}
 		case opRead:
@@ -715,7 +722,11 @@ func runTree(c TreeCase, own string) (res result) {
 			// channels for every word key and prefix, taken from the head before a
 			// transaction starts (taking them inside would freeze its nodes)
 			if in.tx == nil {
-				for _, k := range wordKeys {
+				keys := wordKeys
+				if in.dense {
+					keys = denseWatchKeys
+				}
+				for _, k := range keys {
 					if err = in.collectWatches(k); err != nil {
 						break
 					}
@@ -839,6 +850,8 @@ func genDenseKey() *rapid.Generator[[]byte] {
 	})
 }
 
+var denseWatchKeys = [][]byte{{'p'}, {'q'}, {'p', 0}, {'p', 1}, {'p', 200}, {'q', 0}, {'q', 12}, {}}
+
 var wordKeys = func() [][]byte {
 	var out [][]byte
 	for _, w := range []string{"", "a", "ab", "abc", "abd", "abe", "abcd", "abcde", "x", "xy", "xyz", "b", "ba"} {
@@ -866,8 +879,9 @@ func genTreeCase(t *rapid.T) TreeCase {
 		// in-place mutation paths), with channels collected up front
 		weights = []int{opBegin, opInsert, opInsert, opInsert, opInsert, opDelete, opDelete, opDelete, opDelete, opModify, opCommit, opCommit, opAbandon, opWatchAll, opWatchAll, opInsertWatch, opRead}
 	}
+	c.Dense = dense
 	if dense {
-		weights = append(weights, opInsertRange, opInsertRange, opInsertRange, opDeleteRange, opDeleteRange, opClone, opIter)
+		weights = append(weights, opWatchAll, opWatchAll, opInsertRange, opInsertRange, opInsertRange, opDeleteRange, opDeleteRange, opClone, opIter)
 	}
 	genOp := rapid.Custom(func(t *rapid.T) Op {
 		o := Op{K: rapid.SampledFrom(weights).Draw(t, "k")}
